@@ -6,7 +6,7 @@
 // the holder, which goroutine performs the next one.  After every step the shared logger is
 // probed at every level through an in-memory core.
 //
-//	c18conc -seed N -out PREFIX -mode corpus|random|replay -n COUNT [-in FILE]
+//	c18conc -seed N -out PREFIX -mode corpus|random|replay|search -n COUNT [-in FILE] [-final] [-budget K]
 package main
 
 import (
@@ -137,6 +137,17 @@ const maxSteps = 600
 
 // runCase replays: first the prefix, then whatever pick says, until all goroutines returned.
 func runCase(in initSpec, progs [][]cop, prefix []int, pick picker) (sched []int, obs []cobs, done bool, errs string) {
+	sched, obs, doneT, errs := runCaseX(in, progs, prefix, pick, true)
+	done = true
+	for _, d := range doneT {
+		done = done && d
+	}
+	return sched, obs, done && errs == "", errs
+}
+
+// runCaseX: pick == nil stops after the prefix; everyStep == false probes only at the end (one
+// entry in obs).  doneT tells which goroutines have returned.
+func runCaseX(in initSpec, progs [][]cop, prefix []int, pick picker, everyStep bool) (sched []int, obs []cobs, doneT []bool, errs string) {
 	core, logs := observer.New(zapcore.Level(in.Level))
 	zap.ReplaceGlobals(zap.New(core))
 	base := log.InitLogger(context.TODO(), zfields(in.Fields)...)
@@ -146,7 +157,14 @@ func runCase(in initSpec, progs [][]cop, prefix []int, pick picker) (sched []int
 	n := len(progs)
 	s := logsched.New(n)
 	log.VerifYield = s.Yield
-	defer func() { log.VerifYield = nil }()
+	defer func() { log.VerifYield = nil; s.Abort() }()
+	doneT = make([]bool, n)
+	flags := func() []bool {
+		for t := range doneT {
+			doneT[t] = s.Done(t)
+		}
+		return doneT
+	}
 	for t := 0; t < n; t++ {
 		cx := context.WithValue(base, otherKey{t}, t) // a distinct context sharing the holder
 		p := progs[t]
@@ -159,11 +177,11 @@ func runCase(in initSpec, progs [][]cop, prefix []int, pick picker) (sched []int
 				}
 			}
 		}); err != nil {
-			return sched, obs, false, err.Error()
+			return sched, obs, flags(), err.Error()
 		}
 	}
 	for step := 0; step < maxSteps; step++ {
-		if step >= len(prefix) && s.AllDone() {
+		if step >= len(prefix) && (pick == nil || s.AllDone()) {
 			break
 		}
 		var t int
@@ -173,12 +191,17 @@ func runCase(in initSpec, progs [][]cop, prefix []int, pick picker) (sched []int
 			t = pick(step, s, n)
 		}
 		if _, err := s.Step(t); err != nil {
-			return sched, obs, false, err.Error()
+			return sched, obs, flags(), err.Error()
 		}
 		sched = append(sched, t)
-		obs = append(obs, probe(base, logs))
+		if everyStep {
+			obs = append(obs, probe(base, logs))
+		}
 	}
-	return sched, obs, s.AllDone(), ""
+	if !everyStep {
+		obs = []cobs{probe(base, logs)}
+	}
+	return sched, obs, flags(), ""
 }
 
 func running(s *logsched.Sched, n int) []int {
@@ -229,6 +252,173 @@ func emit(out *gal.Out, kind string, in initSpec, progs [][]cop, prefix []int, p
 		"; cc_sched := " + gal.ListOf(sched, func(t int) string { return fmt.Sprint(t) }) + "%nat" +
 		"; cc_obs := " + gal.ListOf(obs, gObs) + "; cc_done := " + gal.Bool(done) + " |})%N"
 	out.Case(t, ccase{Kind: kind, Init: in, Progs: progs, Prefix: prefix, Sched: sched, Obs: obs, Done: done, Err: errs})
+}
+
+// emitFinal runs prefix + round-robin completion and writes a final-state case (sc_case): only
+// the quiescent logger is judged, with the specification predicate final_ok — used when the
+// number of yields per call of the code under test differs from the model's programs.
+func emitFinal(out *gal.Out, kind string, in initSpec, progs [][]cop, prefix []int) {
+	if in.Fields == nil {
+		in.Fields = []uint64{}
+	}
+	sched, obs, doneT, errs := runCaseX(in, progs, prefix, roundRobin, false)
+	done := errs == ""
+	for _, d := range doneT {
+		done = done && d
+	}
+	writeFinal(out, kind, in, progs, sched, obs[len(obs)-1], done, errs, 0)
+}
+
+func writeFinal(out *gal.Out, kind string, in initSpec, progs [][]cop, sched []int, fin cobs, done bool, errs string, explored int) {
+	t := "({| sc_init := " + gCore(in) + "; sc_progs := " +
+		gal.ListOf(progs, func(p []cop) string { return gal.ListOf(p, gCop) }) +
+		"; sc_final := " + gObs(fin) + " |})%N"
+	out.Case(t, fcase{Kind: kind, Judge: "final", Init: in, Progs: progs, Sched: sched, Final: fin, Done: done, Err: errs, Explored: explored})
+}
+
+type fcase struct {
+	Kind     string   `json:"kind"`
+	Judge    string   `json:"judge"`
+	Init     initSpec `json:"init"`
+	Progs    [][]cop  `json:"progs"`
+	Sched    []int    `json:"sched"`
+	Final    cobs     `json:"final"`
+	Done     bool     `json:"done"`
+	Err      string   `json:"err,omitempty"`
+	Explored int      `json:"explored"`
+}
+
+// suspicious mirrors final_ok of LogCtxJudge.v (the verdict itself is given by Coq): fields =
+// initial ++ a permutation of all added, level = that of a goroutine's last SetLevel.
+func suspicious(in initSpec, progs [][]cop, fin cobs) bool {
+	if fin.Full != nil {
+		return true
+	}
+	want := map[uint64]int{}
+	nadd := 0
+	var lasts []int
+	for _, p := range progs {
+		last, has := 0, false
+		for _, o := range p {
+			if o.Op == "With" {
+				for _, f := range o.Fields {
+					want[f]++
+					nadd++
+				}
+			} else {
+				last, has = o.Level, true
+			}
+		}
+		if has {
+			lasts = append(lasts, last)
+		}
+	}
+	if len(lasts) == 0 {
+		l := in.Level
+		if in.Wrap != nil {
+			l = *in.Wrap
+		}
+		lasts = []int{l}
+	}
+	if len(fin.Fields) != len(in.Fields)+nadd || !same(fin.Fields[:len(in.Fields)], in.Fields) {
+		return true
+	}
+	for _, f := range fin.Fields[len(in.Fields):] {
+		want[f]--
+		if want[f] < 0 {
+			return true
+		}
+	}
+	for _, l := range lasts {
+		var m uint64
+		for i := range levels {
+			if i-1 >= l {
+				m |= 1 << uint(i)
+			}
+		}
+		if m == fin.Mask {
+			return false
+		}
+	}
+	return true
+}
+
+// search enumerates, on the real (instrumented) code, every schedule of every catalogue program
+// pair up to the step budget (depth-first over schedule prefixes, each prefix a fresh run) and
+// writes the quiescent states that look like a lost field / lost level, shortest schedule
+// first, for Coq to judge with final_ok.  Nothing about the number of yields per call is assumed.
+func search(out *gal.Out, budget, keep int) {
+	w := func(k uint64) cop { return cop{Op: "With", Fields: []uint64{k}} }
+	sl := func(l int) cop { return cop{Op: "SetLevel", Level: l} }
+	dbg := -1
+	inits := []initSpec{{Level: 0, Fields: []uint64{}}, {Level: 1, Fields: []uint64{9}, Wrap: &dbg}}
+	catalogue := [][][]cop{
+		{{w(1)}, {w(2)}},
+		{{w(1)}, {sl(2)}},
+		{{sl(-1)}, {sl(2)}},
+		{{w(1), w(3)}, {w(2)}},
+		{{w(1)}, {w(2), sl(2)}},
+		{{w(1), sl(1)}, {sl(2), w(2)}},
+		{{{Op: "With"}, w(1)}, {w(2)}},
+	}
+	type hit struct {
+		in    initSpec
+		progs [][]cop
+		sched []int
+		fin   cobs
+	}
+	var hits []hit
+	var lastOK *hit
+	explored := 0
+	for _, progs := range catalogue {
+		for _, in := range inits {
+			var dfs func(prefix []int)
+			dfs = func(prefix []int) {
+				sched, obs, doneT, errs := runCaseX(in, progs, prefix, nil, false)
+				if errs != "" {
+					return
+				}
+				all := true
+				for _, d := range doneT {
+					all = all && d
+				}
+				if all {
+					explored++
+					h := hit{in, progs, append([]int(nil), sched...), obs[0]}
+					if suspicious(in, progs, obs[0]) {
+						hits = append(hits, h)
+					} else {
+						lastOK = &h
+					}
+					return
+				}
+				if len(prefix) >= budget {
+					return
+				}
+				for t, d := range doneT {
+					if !d {
+						dfs(append(append([]int(nil), prefix...), t))
+					}
+				}
+			}
+			dfs(nil)
+		}
+	}
+	// shortest schedules, smallest programs first
+	for i := 1; i < len(hits); i++ {
+		for j := i; j > 0 && len(hits[j].sched) < len(hits[j-1].sched); j-- {
+			hits[j], hits[j-1] = hits[j-1], hits[j]
+		}
+	}
+	if len(hits) > keep {
+		hits = hits[:keep]
+	}
+	for _, h := range hits {
+		writeFinal(out, "search", h.in, h.progs, h.sched, h.fin, true, "", explored)
+	}
+	if len(hits) == 0 && lastOK != nil {
+		writeFinal(out, "search-clean", lastOK.in, lastOK.progs, lastOK.sched, lastOK.fin, true, "", explored)
+	}
 }
 
 // ---------- generators ----------
@@ -331,9 +521,11 @@ func corpus(out *gal.Out) {
 func main() {
 	seed := flag.Uint64("seed", 1, "seed")
 	outp := flag.String("out", "c18conc", "output prefix")
-	mode := flag.String("mode", "random", "corpus|random|replay")
+	mode := flag.String("mode", "random", "corpus|random|replay|search")
 	n := flag.Int("n", 100, "number of cases")
 	in := flag.String("in", "", "replay: file with one {init, progs, prefix} JSON object per line")
+	final := flag.Bool("final", false, "replay: judge only the quiescent final state (sc_case terms)")
+	budget := flag.Int("budget", 12, "search: maximal schedule length")
 	flag.Parse()
 	out := gal.NewOut(*outp)
 	defer out.Close()
@@ -362,8 +554,14 @@ func main() {
 			if kind == "" {
 				kind = "replay"
 			}
-			emit(out, kind, c.Init, c.Progs, pre, roundRobin)
+			if *final {
+				emitFinal(out, kind, c.Init, c.Progs, pre)
+			} else {
+				emit(out, kind, c.Init, c.Progs, pre, roundRobin)
+			}
 		}
+	case "search":
+		search(out, *budget, 12)
 	default:
 		for i := 0; i < *n; i++ {
 			in, progs := g.progs()
